@@ -156,11 +156,19 @@ class Ctx:
             p = spawn(pcf, ptf)
             ncrash = 0
             while True:
-                try:
-                    so, se = p.communicate(timeout=timeout)
-                except subprocess.TimeoutExpired:
-                    p.kill()
-                    raise ToolError(f"harness engine {engine} timed out")
+                t_start = time.time()
+                while True:
+                    try:
+                        so, se = p.communicate(timeout=10)
+                        break
+                    except subprocess.TimeoutExpired:
+                        # a trace that grows without bound (an event recorded in an endless loop) must not fill the disk
+                        if os.path.exists(ptf) and os.path.getsize(ptf) > 3 * 1024 ** 3:
+                            p.kill()
+                            raise ToolError(f"harness engine {engine}: the trace grows without bound ({ptf})")
+                        if time.time() - t_start > timeout:
+                            p.kill()
+                            raise ToolError(f"harness engine {engine} timed out")
                 if p.returncode == 77:
                     # the process under test was left with a thread blocked for good (recorded in the trace as data) and ended
                     # itself after that case: the remaining cases run in a fresh process
